@@ -70,3 +70,73 @@ def ob1(facts, rep, rule='OB-1'):
         else:
             rep.ok(rule, key, b.loc(revs[0][0]), 'reversal limited to the appended part')
     rep.floor(rule, 'forward-path functions', n, 4)
+
+
+# ------------------------------------------------------------------------------------------------ PO-10 (C09)
+_UN = "<pattern_matching::ukkonen::Matches<'a, F, C, T> as std::iter::Iterator>::next"
+_COLS = 'find_all_end refills both columns to exactly m + 1 cells (rule RI-3) and next() never resizes them'
+PO10_AUDIT = {
+    'pattern_matching::ukkonen::Ukkonen::<F>::with_capacity|overflow-add|1,arg1':
+        'capacity hint only: Vec::with_capacity refuses (panics on) every request above isize::MAX / 8 cells anyway, so there is no non-panicking behaviour for m = usize::MAX that the overflow check could change',
+    "<pattern_matching::ukkonen::Matches<'a, F, C, T> as std::iter::Iterator>::next|index|index_mut(arg1.ukkonen.D[Rem(x0,2)],0)<std::vec::Vec<usize>>":
+        'cell 0 of a column of m + 1 >= 1 cells: find_all_end refills both columns to exactly m + 1 cells (rule RI-3) and next() never resizes them',
+    "<pattern_matching::ukkonen::Matches<'a, F, C, T> as std::iter::Iterator>::next|overflow-add|1,arg1.lastk":
+        'lastk is private to Matches: min(k, m) at construction, min(lastk + 1, m) or a decrement afterwards, so lastk <= m = pattern.len() <= isize::MAX',
+    "<pattern_matching::ukkonen::Matches<'a, F, C, T> as std::iter::Iterator>::next|index|index(arg1.ukkonen.D[P[1 + -1*Rem(x0,2)].0],x1)<std::vec::Vec<usize>>":
+        'j <= lastk <= m < m + 1 cells: find_all_end refills both columns to exactly m + 1 cells (rule RI-3) and next() never resizes them',
+    "<pattern_matching::ukkonen::Matches<'a, F, C, T> as std::iter::Iterator>::next|overflow-add|1,Index<I>>::index(arg1.ukkonen.D[P[1 + -1*Rem(x0,2)].0],x1)":
+        'a cell is a computed distance (<= its row j <= m, since D[col][j] <= D[col][j-1] + 1 and D[col][0] = 0) or the initial filler k + 1 (saturating), and a never-computed cell is only read when lastk can still grow, i.e. k + 1 < m',
+    "<pattern_matching::ukkonen::Matches<'a, F, C, T> as std::iter::Iterator>::next|overflow-sub|x0,1":
+        'j runs over 1..=lastk',
+    "<pattern_matching::ukkonen::Matches<'a, F, C, T> as std::iter::Iterator>::next|index|index(arg1.ukkonen.D[Rem(x0,2)],P[-1 + x1].0)<std::vec::Vec<usize>>":
+        'j - 1 < j <= m: find_all_end refills both columns to exactly m + 1 cells (rule RI-3) and next() never resizes them',
+    "<pattern_matching::ukkonen::Matches<'a, F, C, T> as std::iter::Iterator>::next|overflow-add|1,Index<I>>::index(arg1.ukkonen.D[Rem(x0,2)],P[-1 + x1].0)":
+        'cell j - 1 of the current column was computed in this iteration: <= j - 1 < m',
+    "<pattern_matching::ukkonen::Matches<'a, F, C, T> as std::iter::Iterator>::next|index|index(arg1.ukkonen.D[P[1 + -1*Rem(x0,2)].0],P[-1 + x1].0)<std::vec::Vec<usize>>":
+        'j - 1 < m + 1 cells: find_all_end refills both columns to exactly m + 1 cells (rule RI-3) and next() never resizes them',
+    "<pattern_matching::ukkonen::Matches<'a, F, C, T> as std::iter::Iterator>::next|bounds|idx=P[-1 + x0].0,len=PtrMetadata(arg1.pattern)":
+        'j - 1 < lastk <= m = pattern.len() (m is set from pattern.len() by find_all_end)',
+    "<pattern_matching::ukkonen::Matches<'a, F, C, T> as std::iter::Iterator>::next|overflow-add|Fn::call(arg1.ukkonen.cost,tuple{arg1.pattern[P[-1 + x0].0],Borrow::borrow(x1)}),Index<I>>::index(arg1.ukkonen.D[P[1 + -1*Rem(x2,2)].0],P[-1 + x0].0)":
+        'a u32 cost plus a cell (<= m + 1, see above) fits the 64-bit usize of the analysed target',
+    "<pattern_matching::ukkonen::Matches<'a, F, C, T> as std::iter::Iterator>::next|index|index_mut(arg1.ukkonen.D[Rem(x0,2)],x1)<std::vec::Vec<usize>>":
+        'j <= lastk <= m: find_all_end refills both columns to exactly m + 1 cells (rule RI-3) and next() never resizes them',
+    "<pattern_matching::ukkonen::Matches<'a, F, C, T> as std::iter::Iterator>::next|index|index(arg1.ukkonen.D[Rem(x0,2)],arg1.lastk)<std::vec::Vec<usize>>":
+        'lastk <= m: find_all_end refills both columns to exactly m + 1 cells (rule RI-3) and next() never resizes them',
+    "<pattern_matching::ukkonen::Matches<'a, F, C, T> as std::iter::Iterator>::next|overflow-sub|arg1.lastk,1":
+        'the loop runs while D[col][lastk] > k; D[col][0] = 0 <= k was stored in this iteration, so it stops at lastk = 0 at the latest',
+    "<pattern_matching::ukkonen::Matches<'a, F, C, T> as std::iter::Iterator>::next|index|index(arg1.ukkonen.D[Rem(x0,2)],arg1.m)<std::vec::Vec<usize>>":
+        'cell m of m + 1: find_all_end refills both columns to exactly m + 1 cells (rule RI-3) and next() never resizes them',
+}
+
+
+def po10(facts, rep, rule='PO-10'):
+    from . import eng_po
+    from .po_known import KNOWN
+    rep.rule(rule, 'panic obligations of Ukkonen (with_capacity, find_all_end, Matches::next): every MIR Assert and may-panic call '
+                   'is discharged by interval analysis or audited; in particular arithmetic on the caller-supplied threshold k '
+                   'must not overflow (k is unbounded in the property)')
+    names = ('pattern_matching::ukkonen::Ukkonen::<F>::with_capacity', 'pattern_matching::ukkonen::Ukkonen::<F>::find_all_end', _UN)
+    bodies = [b for b in facts.body_list if b.path in names or (b.kind == 'Closure' and b.path.startswith(names))]
+    rep.floor(rule, 'bodies', len([b for b in bodies if b.kind != 'Closure']), 3)
+    total = 0
+    present = set(facts.bodies)
+    for b, nb, ia, obs in eng_po.scan(facts, bodies, KNOWN):
+        rep.analysed_body(b)
+        seen = {}
+        for o in obs:
+            total += 1
+            key = '%s|%s|%s' % (b.path, o['kind'], o['ops'])
+            seen[key] = seen.get(key, 0) + 1
+            k2 = key + ('#%d' % seen[key] if seen[key] > 1 else '')
+            if o['discharged']:
+                rep.ok(rule, k2, o['where'], 'interval analysis')
+            elif key in PO10_AUDIT:
+                rep.audited(rule, k2, o['where'], PO10_AUDIT[key])
+            elif eng_po.orphan_match(key, PO10_AUDIT, present):
+                k0 = eng_po.orphan_match(key, PO10_AUDIT, present)
+                rep.audited(rule, k2, o['where'], 'arithmetic of the removed function %s, now written in its caller: %s' % (k0.split('|')[0], PO10_AUDIT[k0]))
+            elif eng_po.implied(key, PO10_AUDIT, o):
+                rep.audited(rule, k2, o['where'], eng_po.implied(key, PO10_AUDIT, o)[1])
+            else:
+                rep.bad(rule, key, o['where'], 'undischarged %s obligation: %s' % (o['kind'], o['detail']))
+    rep.floor(rule, 'obligations', total, 25)
